@@ -60,6 +60,8 @@ k("c18_execute_move_copy_existing", "dedupe::FsCommand::execute [Move, copy, tar
 k("c20_file_lock_new", "lock::FileLock::new + fcntl_lock", module="lock", t=600, c_ffi=True)
 for _o in ("granted", "unsupported", "refused"):
     k("c20_maybe_lock_" + _o, "dedupe::FsCommand::maybe_lock [FileLock::new: %s]" % _o, module="dedupe__c20", t=600)
+for _o in ("after_unsupported_refused", "after_refused_granted", "after_granted_refused"):
+    k("c20_maybe_lock_" + _o, "dedupe::FsCommand::maybe_lock [two files in sequence]", module="dedupe__c20", t=600)
 # ---- config.rs (kani/config.rs + kani/contracts.toml)
 k("c06_rf_over_contract", "config::GroupConfig::rf_over [function contract]", module="config", t=300, contract_ob="C06.rf_over.contract")
 k("c06_rf_under_contract", "config::GroupConfig::rf_under [function contract]", module="config", t=300, contract_ob="C06.rf_under.contract")
@@ -77,6 +79,8 @@ k("c08_priority_top_bottom_bounded", "dedupe::sort_by_priority [Top, Bottom]", m
 k("c19_release", "semaphore::Semaphore::release", module="semaphore", t=300)
 k("c19_guard_roundtrip", "semaphore::Semaphore::access + Drop for SemaphoreGuard", module="semaphore", t=300)
 k("c19_owned_guard_roundtrip", "semaphore::Semaphore::access_owned + Drop for OwnedSemaphoreGuard", module="semaphore", t=300)
+k("c19_acquire_under_interference_bounded", "semaphore::Semaphore::acquire (counter rewritten at every lock acquisition)", module="semaphore", t=600,
+  cls="bounded", bound="at most 2 wake-ups; other threads modelled by havocking the counter whenever the mutex is taken")
 k("c19_acquire_after_wakeups_bounded", "semaphore::Semaphore::acquire (stubbed Condvar::wait)", module="semaphore", t=300,
   cls="bounded", bound="at most 2 wake-ups of Condvar::wait (the unbounded loop is the Verus unit `semaphore`)")
 # ---- transform.rs
@@ -135,7 +139,9 @@ PROPS = {
         design_ref="DESIGN.md §5 C05",
     ),
     "C20": dict(
-        kani=C20_FAMILY + ["c20_maybe_lock_granted", "c20_maybe_lock_unsupported", "c20_maybe_lock_refused", "c20_file_lock_new"],
+        kani=C20_FAMILY + ["c20_maybe_lock_granted", "c20_maybe_lock_unsupported", "c20_maybe_lock_refused", "c20_file_lock_new",
+                           "c20_maybe_lock_after_unsupported_refused", "c20_maybe_lock_after_refused_granted",
+                           "c20_maybe_lock_after_granted_refused"],
         verus=[],
         prefixes=["C20."],
         category="proof",
@@ -220,7 +226,8 @@ PROPS = {
         design_ref="DESIGN.md §5 C14",
     ),
     "C19": dict(
-        kani=["c19_release", "c19_guard_roundtrip", "c19_owned_guard_roundtrip", "c19_acquire_after_wakeups_bounded"],
+        kani=["c19_release", "c19_guard_roundtrip", "c19_owned_guard_roundtrip", "c19_acquire_after_wakeups_bounded",
+              "c19_acquire_under_interference_bounded"],
         verus=["semaphore"],
         prefixes=["C19."],
         category="proof",
